@@ -4,31 +4,31 @@
   duplicate-free partition of the graph's names in which an edge never leads
   into a later component (`TopoOrder`).
 
-  Shape: a state invariant `TInv` (visited = stack ∪ components, stack indices
+  Shape: a state invariant `TjInv` (visited = stack ∪ components, stack indices
   strictly increasing towards the top and below `next_index`, the components so
-  far accepted by the checker `compsOk`), a postcondition `Post` of
+  far accepted by the checker `compsOk`), a postcondition `ScPostOf` of
   `strongly_connect` (the vertices it leaves on the stack only refer to visited
   vertices, and never to a stack vertex below the call's base whose index is
   smaller than the call's lowlink; the lowlink is the call's own index or the
-  index of a base vertex), and a loop invariant `LInv` of the `for w in …` loop.
+  index of a base vertex), and a loop invariant `ScLoopInv` of the `for w in …` loop.
 -/
 import RotoV.Lemmas.TarjanNoPanic
 
 namespace RotoV.Tarjan
 
-def idx (st : State) (x : Nat) : Nat :=
+def vIdx (st : State) (x : Nat) : Nat :=
   match st.vertices.lookup x with
   | some vs => vs.index
   | none => 0
 
-def low (st : State) (x : Nat) : Nat :=
+def vLow (st : State) (x : Nat) : Nat :=
   match st.vertices.lookup x with
   | some vs => vs.lowlink
   | none => 0
 
 theorem lookup_congr {st st' : State} {x : Nat} (h : st'.vertices.lookup x = st.vertices.lookup x) :
-    idx st' x = idx st x ∧ low st' x = low st x ∧ (Has st' x ↔ Has st x) := by
-  simp only [idx, low, Has, h, and_self, iff_self]
+    vIdx st' x = vIdx st x ∧ vLow st' x = vLow st x ∧ (Has st' x ↔ Has st x) := by
+  simp only [vIdx, vLow, Has, h, and_self, iff_self]
 
 theorem compsOk_snoc (g : Graph) : ∀ (comps : List (List Nat)) (seen c : List Nat),
     compsOk g seen (comps ++ [c]) = (compsOk g seen comps && compOk g (seen ++ comps.flatten) c) := by
@@ -39,27 +39,27 @@ theorem compsOk_snoc (g : Graph) : ∀ (comps : List (List Nat)) (seen c : List 
     intro seen c
     simp only [List.cons_append, compsOk, ih, List.flatten_cons, List.append_assoc, Bool.and_assoc]
 
-structure TInv (g : Graph) (st : State) : Prop where
+structure TjInv (g : Graph) (st : State) : Prop where
   nodup : (st.stack ++ st.components.flatten).Nodup
   vis : ∀ x, Has st x ↔ (x ∈ st.stack ∨ x ∈ st.components.flatten)
   nodes : ∀ x, Has st x → x ∈ g.nodes
-  sorted : st.stack.Pairwise (fun a b => idx st b < idx st a)
-  bound : ∀ x, x ∈ st.stack → idx st x < st.nextIndex
+  sorted : st.stack.Pairwise (fun a b => vIdx st b < vIdx st a)
+  bound : ∀ x, x ∈ st.stack → vIdx st x < st.nextIndex
   back : compsOk g [] st.components = true
 
-theorem TInv.congr {g : Graph} {st st' : State} (h : TInv g st) (hs : st'.stack = st.stack)
+theorem TjInv.congr {g : Graph} {st st' : State} (h : TjInv g st) (hs : st'.stack = st.stack)
     (hc : st'.components = st.components) (hn : st'.nextIndex = st.nextIndex)
-    (hh : ∀ x, Has st' x ↔ Has st x) (hi : ∀ x, idx st' x = idx st x) : TInv g st' := by
+    (hh : ∀ x, Has st' x ↔ Has st x) (hi : ∀ x, vIdx st' x = vIdx st x) : TjInv g st' := by
   refine ⟨by rw [hs, hc]; exact h.nodup, fun x => by rw [hh, hs, hc]; exact h.vis x,
     fun x hx => h.nodes x ((hh x).1 hx), ?_, fun x hx => by rw [hi, hn]; exact h.bound x (hs ▸ hx),
     by rw [hc]; exact h.back⟩
   rw [hs]
   exact h.sorted.imp (fun {a b} hab => by rw [hi, hi]; exact hab)
 
-theorem TInv.split {g : Graph} {st : State} (h : TInv g st) {new base : List Nat} {v : Nat}
+theorem TjInv.split {g : Graph} {st : State} (h : TjInv g st) {new base : List Nat} {v : Nat}
     (hs : st.stack = new ++ v :: base) :
-    (∀ a, a ∈ new → idx st v < idx st a) ∧ (∀ b, b ∈ base → idx st b < idx st v) ∧
-    (∀ a, a ∈ new → ∀ b, b ∈ base → idx st b < idx st a) := by
+    (∀ a, a ∈ new → vIdx st v < vIdx st a) ∧ (∀ b, b ∈ base → vIdx st b < vIdx st v) ∧
+    (∀ a, a ∈ new → ∀ b, b ∈ base → vIdx st b < vIdx st a) := by
   have := h.sorted
   rw [hs, List.pairwise_append] at this
   obtain ⟨_, h2, h3⟩ := this
@@ -70,8 +70,8 @@ theorem TInv.split {g : Graph} {st : State} (h : TInv g st) {new base : List Nat
 theorem updateLowlink_spec (st : State) (v new : Nat) (st' : State)
     (h : st.updateLowlink v new = .ok st') :
     st'.stack = st.stack ∧ st'.components = st.components ∧ st'.nextIndex = st.nextIndex ∧
-    (∀ x, Has st' x ↔ Has st x) ∧ (∀ x, idx st' x = idx st x) ∧
-    (low st' v ≤ low st v ∧ low st' v ≤ new ∧ (low st' v = low st v ∨ low st' v = new)) ∧
+    (∀ x, Has st' x ↔ Has st x) ∧ (∀ x, vIdx st' x = vIdx st x) ∧
+    (vLow st' v ≤ vLow st v ∧ vLow st' v ≤ new ∧ (vLow st' v = vLow st v ∨ vLow st' v = new)) ∧
     (∀ x, x ≠ v → st'.vertices.lookup x = st.vertices.lookup x) := by
   unfold State.updateLowlink at h
   cases hl : st.vertices.lookup v with
@@ -85,19 +85,19 @@ theorem updateLowlink_spec (st : State) (v new : Nat) (st' : State)
       by_cases e : x = v
       · subst e; simp [hl]
       · simp [e]
-    · simp only [idx, amInsert_lookup]
+    · simp only [vIdx, amInsert_lookup]
       by_cases e : x = v
       · subst e; simp [hl]
       · simp [e]
-    · have e : low { st with vertices := amInsert v { vs with lowlink := min vs.lowlink new } st.vertices } v
-          = min vs.lowlink new := by simp [low, amInsert_lookup]
-      have e0 : low st v = vs.lowlink := by simp [low, hl]
+    · have e : vLow { st with vertices := amInsert v { vs with lowlink := min vs.lowlink new } st.vertices } v
+          = min vs.lowlink new := by simp [vLow, amInsert_lookup]
+      have e0 : vLow st v = vs.lowlink := by simp [vLow, hl]
       rw [e, e0]
       omega
     · simp [amInsert_lookup, hx]
 
 theorem vertex_low {st : State} {w : Nat} {vs : VertexState} (h : st.vertex w = .ok vs) :
-    low st w = vs.lowlink ∧ idx st w = vs.index := by
+    vLow st w = vs.lowlink ∧ vIdx st w = vs.index := by
   unfold State.vertex at h
   cases hl : st.vertices.lookup w with
   | none => rw [hl] at h; cases h
@@ -105,74 +105,74 @@ theorem vertex_low {st : State} {w : Nat} {vs : VertexState} (h : st.vertex w = 
     rw [hl] at h
     simp only [Except.ok.injEq] at h
     subst h
-    simp [low, idx, hl]
+    simp [vLow, vIdx, hl]
 
 /-- what a returned call `strongly_connect(v)` guarantees -/
-structure Post (g : Graph) (st : State) (v : Nat) (st' : State) : Prop where
-  inv : TInv g st'
+structure ScPostOf (g : Graph) (st : State) (v : Nat) (st' : State) : Prop where
+  inv : TjInv g st'
   frame : ∀ x, Has st x → st'.vertices.lookup x = st.vertices.lookup x
   has : Has st' v
-  idxv : idx st' v = st.nextIndex
-  lowdom : low st' v = idx st' v ∨ ∃ b, b ∈ st.stack ∧ low st' v = idx st' b
-  stack : ∃ new, st'.stack = new ++ st.stack ∧ (new = [] ∨ low st' v ≠ idx st' v) ∧
-    ∀ x, x ∈ new → ∀ w, Edge g x w → Has st' w ∧ (w ∈ st.stack → low st' v ≤ idx st' w)
+  idxv : vIdx st' v = st.nextIndex
+  lowdom : vLow st' v = vIdx st' v ∨ ∃ b, b ∈ st.stack ∧ vLow st' v = vIdx st' b
+  stack : ∃ new, st'.stack = new ++ st.stack ∧ (new = [] ∨ vLow st' v ≠ vIdx st' v) ∧
+    ∀ x, x ∈ new → ∀ w, Edge g x w → Has st' w ∧ (w ∈ st.stack → vLow st' v ≤ vIdx st' w)
 
 def ScPost (g : Graph) (sc : State → Nat → M State) : Prop :=
-  ∀ st v st', TInv g st → ¬ Has st v → v ∈ g.nodes → sc st v = .ok st' → Post g st v st'
+  ∀ st v st', TjInv g st → ¬ Has st v → v ∈ g.nodes → sc st v = .ok st' → ScPostOf g st v st'
 
 /-- invariant of the `for w in references.get(&v)` loop of the call on `v`
 whose stack base is `base` -/
-structure LInv (g : Graph) (v : Nat) (base : List Nat) (st : State) : Prop where
-  inv : TInv g st
+structure ScLoopInv (g : Graph) (v : Nat) (base : List Nat) (st : State) : Prop where
+  inv : TjInv g st
   has : Has st v
-  lowle : low st v ≤ idx st v
-  lowdom : low st v = idx st v ∨ ∃ b, b ∈ base ∧ low st v = idx st b
+  lowle : vLow st v ≤ vIdx st v
+  lowdom : vLow st v = vIdx st v ∨ ∃ b, b ∈ base ∧ vLow st v = vIdx st b
   stack : ∃ new, st.stack = new ++ v :: base ∧
-    ∀ x, x ∈ new → ∀ w, Edge g x w → Has st w ∧ (w ∈ v :: base → low st v ≤ idx st w)
+    ∀ x, x ∈ new → ∀ w, Edge g x w → Has st w ∧ (w ∈ v :: base → vLow st v ≤ vIdx st w)
 
 /-- how the loop moves the state -/
-structure LRel (v : Nat) (st st' : State) : Prop where
+structure ScLoopRel (v : Nat) (st st' : State) : Prop where
   frame : ∀ x, x ≠ v → Has st x → st'.vertices.lookup x = st.vertices.lookup x
-  lowmono : low st' v ≤ low st v
-  idxv : idx st' v = idx st v
+  lowmono : vLow st' v ≤ vLow st v
+  idxv : vIdx st' v = vIdx st v
   hasv : Has st v → Has st' v
 
-theorem LRel.has {v : Nat} {st st' : State} (r : LRel v st st') (x : Nat) (h : Has st x) : Has st' x := by
+theorem ScLoopRel.has {v : Nat} {st st' : State} (r : ScLoopRel v st st') (x : Nat) (h : Has st x) : Has st' x := by
   by_cases e : x = v
   · subst e; exact r.hasv h
   · exact (lookup_congr (r.frame x e h)).2.2.2 h
 
-theorem LRel.idx {v : Nat} {st st' : State} (r : LRel v st st') (x : Nat) (h : Has st x) :
-    idx st' x = idx st x := by
+theorem ScLoopRel.vIdx {v : Nat} {st st' : State} (r : ScLoopRel v st st') (x : Nat) (h : Has st x) :
+    vIdx st' x = vIdx st x := by
   by_cases e : x = v
   · subst e; exact r.idxv
   · exact (lookup_congr (r.frame x e h)).1
 
-theorem LRel.trans {v : Nat} {a b c : State} (r1 : LRel v a b) (r2 : LRel v b c) : LRel v a c :=
+theorem ScLoopRel.trans {v : Nat} {a b c : State} (r1 : ScLoopRel v a b) (r2 : ScLoopRel v b c) : ScLoopRel v a c :=
   ⟨fun x e h => by rw [r2.frame x e (r1.has x h), r1.frame x e h],
    Nat.le_trans r2.lowmono r1.lowmono, by rw [r2.idxv, r1.idxv], fun h => r2.hasv (r1.hasv h)⟩
 
-theorem LRel.refl (v : Nat) (st : State) : LRel v st st :=
+theorem ScLoopRel.refl (v : Nat) (st : State) : ScLoopRel v st st :=
   ⟨fun _ _ _ => rfl, Nat.le_refl _, rfl, fun h => h⟩
 
 theorem visitRefs_post (g : Graph) (sc : State → Nat → M State) (hsc : ScPost g sc)
     (v : Nat) (base : List Nat) :
-    ∀ (ws : List Nat) (st st' : State), (∀ w, w ∈ ws → w ∈ g.nodes) → LInv g v base st →
+    ∀ (ws : List Nat) (st st' : State), (∀ w, w ∈ ws → w ∈ g.nodes) → ScLoopInv g v base st →
       visitRefs sc v ws st = .ok st' →
-      LInv g v base st' ∧ LRel v st st' ∧
-        ∀ w, w ∈ ws → Has st' w ∧ (w ∈ v :: base → low st' v ≤ idx st' w) := by
+      ScLoopInv g v base st' ∧ ScLoopRel v st st' ∧
+        ∀ w, w ∈ ws → Has st' w ∧ (w ∈ v :: base → vLow st' v ≤ vIdx st' w) := by
   intro ws
   induction ws with
   | nil =>
     intro st st' _ hI h
     simp only [visitRefs, Except.ok.injEq] at h
     subst h
-    exact ⟨hI, LRel.refl v st, fun w hw => by simp at hw⟩
+    exact ⟨hI, ScLoopRel.refl v st, fun w hw => by simp at hw⟩
   | cons w ws ih =>
     intro st st' hn hI h
     have hn' : ∀ x, x ∈ ws → x ∈ g.nodes := fun x hx => hn x (List.mem_cons_of_mem _ hx)
-    have step : ∃ st2, visitRefs sc v ws st2 = .ok st' ∧ LInv g v base st2 ∧ LRel v st st2 ∧
-        (Has st2 w ∧ (w ∈ v :: base → low st2 v ≤ idx st2 w)) := by
+    have step : ∃ st2, visitRefs sc v ws st2 = .ok st' ∧ ScLoopInv g v base st2 ∧ ScLoopRel v st st2 ∧
+        (Has st2 w ∧ (w ∈ v :: base → vLow st2 v ≤ vIdx st2 w)) := by
       obtain ⟨new, hstk, hcl⟩ := hI.stack
       have hvstk : v ∈ st.stack := by rw [hstk]; simp
       obtain ⟨hnewgt, hbaselt, _⟩ := hI.inv.split hstk
@@ -197,10 +197,10 @@ theorem visitRefs_post (g : Graph) (sc : State → Nat → M State) (hsc : ScPos
             obtain ⟨us, uc, un, uh, ui, ul, uf⟩ := updateLowlink_spec st1 v _ st2 hu
             obtain ⟨fvi, fvl, fvh⟩ := lookup_congr (P.frame v hI.has)
             obtain ⟨cnew, cstk, cpop, ccl⟩ := P.stack
-            have hidxw : idx st v < idx st1 w := by rw [P.idxv]; exact hI.inv.bound v hvstk
-            have hidx1 : ∀ x, Has st x → idx st1 x = idx st x := fun x hx =>
+            have hidxw : vIdx st v < vIdx st1 w := by rw [P.idxv]; exact hI.inv.bound v hvstk
+            have hidx1 : ∀ x, Has st x → vIdx st1 x = vIdx st x := fun x hx =>
               (lookup_congr (P.frame x hx)).1
-            have hidx : ∀ x, Has st x → idx st2 x = idx st x := fun x hx => by
+            have hidx : ∀ x, Has st x → vIdx st2 x = vIdx st x := fun x hx => by
               rw [ui]; exact hidx1 x hx
             have hhas : ∀ x, Has st x → Has st2 x := fun x hx =>
               (uh x).2 ((lookup_congr (P.frame x hx)).2.2.2 hx)
@@ -210,8 +210,8 @@ theorem visitRefs_post (g : Graph) (sc : State → Nat → M State) (hsc : ScPos
             refine ⟨st2, h, ⟨P.inv.congr us uc un uh ui, hhas v hI.has, ?_, ?_, ?_⟩,
               ⟨?_, ?_, ?_, fun _ => hhas v hI.has⟩, ?_⟩
             · omega
-            · have keep : low st2 v = low st v →
-                  (low st2 v = idx st2 v ∨ ∃ b, b ∈ base ∧ low st2 v = idx st2 b) := by
+            · have keep : vLow st2 v = vLow st v →
+                  (vLow st2 v = vIdx st2 v ∨ ∃ b, b ∈ base ∧ vLow st2 v = vIdx st2 b) := by
                 intro hmin
                 rcases hI.lowdom with h0 | ⟨b, hb, h0⟩
                 · left; omega
@@ -219,14 +219,14 @@ theorem visitRefs_post (g : Graph) (sc : State → Nat → M State) (hsc : ScPos
                   exact ⟨b, hb, by have := hidx b (hbasehas b (List.mem_cons_of_mem _ hb)); omega⟩
               rcases P.lowdom with hd | ⟨b, hb, hd⟩
               · exact keep (by omega)
-              · have hbi : idx st1 b = idx st b := hidx1 b ((hI.inv.vis b).2 (Or.inl hb))
+              · have hbi : vIdx st1 b = vIdx st b := hidx1 b ((hI.inv.vis b).2 (Or.inl hb))
                 rw [hstk] at hb
                 rcases List.mem_append.1 hb with hb | hb
                 · have := hnewgt b hb
                   exact keep (by omega)
                 · rcases List.mem_cons.1 hb with e | hb
                   · subst e; exact keep (by omega)
-                  · by_cases hc : low st v ≤ idx st b
+                  · by_cases hc : vLow st v ≤ vIdx st b
                     · exact keep (by omega)
                     · right
                       exact ⟨b, hb, by
@@ -271,8 +271,8 @@ theorem visitRefs_post (g : Graph) (sc : State → Nat → M State) (hsc : ScPos
             refine ⟨st2, h, ⟨hI.inv.congr us uc un uh ui, (uh v).2 hI.has, ?_, ?_, ?_⟩,
               ⟨fun x e _ => uf x e, by omega, ui v, fun _ => (uh v).2 hI.has⟩, ?_⟩
             · omega
-            · have keep : low st2 v = low st v →
-                  (low st2 v = idx st2 v ∨ ∃ b, b ∈ base ∧ low st2 v = idx st2 b) := by
+            · have keep : vLow st2 v = vLow st v →
+                  (vLow st2 v = vIdx st2 v ∨ ∃ b, b ∈ base ∧ vLow st2 v = vIdx st2 b) := by
                 intro hmin
                 rcases hI.lowdom with h0 | ⟨b, hb, h0⟩
                 · left; omega
@@ -284,7 +284,7 @@ theorem visitRefs_post (g : Graph) (sc : State → Nat → M State) (hsc : ScPos
                 exact keep (by omega)
               · rcases List.mem_cons.1 hb with e | hb
                 · subst e; exact keep (by omega)
-                · by_cases hc : low st v ≤ idx st w
+                · by_cases hc : vLow st v ≤ vIdx st w
                   · exact keep (by omega)
                   · right
                     exact ⟨w, hb, by have := ui w; omega⟩
@@ -299,7 +299,7 @@ theorem visitRefs_post (g : Graph) (sc : State → Nat → M State) (hsc : ScPos
               have := ui w
               omega
         · next hoff =>
-          refine ⟨st, h, hI, LRel.refl v st, hw, fun hb => ?_⟩
+          refine ⟨st, h, hI, ScLoopRel.refl v st, hw, fun hb => ?_⟩
           exfalso
           apply hoff
           simpa using hbasestk w hb
@@ -311,7 +311,7 @@ theorem visitRefs_post (g : Graph) (sc : State → Nat → M State) (hsc : ScPos
       refine ⟨r'.has _ hw2.1, fun hb => ?_⟩
       have := hw2.2 hb
       have := r'.lowmono
-      have := r'.idx x hw2.1
+      have := r'.vIdx x hw2.1
       omega
     · exact hws x hx
 
@@ -345,12 +345,12 @@ theorem strongConnect_post (g : Graph) : ∀ fuel, ScPost g (strongConnect g fue
     have hne : ∀ x, Has st x → x ≠ v := fun x hx e => h0 (e ▸ hx)
     have hfr0 : ∀ x, Has st x → st0.vertices.lookup x = st.vertices.lookup x := fun x hx => by
       rw [hl0, if_neg (hne x hx)]
-    have hi0v : idx st0 v = st.nextIndex := by simp [idx, hl0]
-    have hlo0v : low st0 v = st.nextIndex := by simp [low, hl0]
+    have hi0v : vIdx st0 v = st.nextIndex := by simp [vIdx, hl0]
+    have hlo0v : vLow st0 v = st.nextIndex := by simp [vLow, hl0]
     have hh0v : Has st0 v := by simp [Has, hl0]
     have hvstk : v ∉ st.stack := fun hm => h0 ((hT.vis v).2 (Or.inl hm))
     have hvc : v ∉ st.components.flatten := fun hm => h0 ((hT.vis v).2 (Or.inr hm))
-    have hT0 : TInv g st0 := by
+    have hT0 : TjInv g st0 := by
       refine ⟨?_, ?_, ?_, ?_, ?_, hT.back⟩
       · show (v :: st.stack ++ st.components.flatten).Nodup
         rw [List.cons_append, List.nodup_cons]
@@ -376,13 +376,13 @@ theorem strongConnect_post (g : Graph) : ∀ fuel, ScPost g (strongConnect g fue
             (lookup_congr (hfr0 b ((hT.vis b).2 (Or.inl hb)))).1]
           exact hab
       · intro x hx
-        show idx st0 x < st.nextIndex + 1
+        show vIdx st0 x < st.nextIndex + 1
         rcases List.mem_cons.1 hx with e | hx
         · subst e; omega
         · have hb' : Has st x := (hT.vis x).2 (Or.inl hx)
           rw [(lookup_congr (hfr0 x hb')).1]
           exact Nat.lt_succ_of_lt (hT.bound x hx)
-    have hL0 : LInv g v st.stack st0 :=
+    have hL0 : ScLoopInv g v st.stack st0 :=
       ⟨hT0, hh0v, by omega, Or.inl (by omega), ⟨[], rfl, by simp⟩⟩
     cases h1 : visitRefs (strongConnect g fuel) v (g.refs v) st0 with
     | error e =>
@@ -402,10 +402,10 @@ theorem strongConnect_post (g : Graph) : ∀ fuel, ScPost g (strongConnect g fue
       obtain ⟨hnewgt, hbaselt, _⟩ := hI.inv.split hstk
       have hframe : ∀ x, Has st x → st1.vertices.lookup x = st.vertices.lookup x := fun x hx => by
         rw [r.frame x (hne x hx) ((lookup_congr (hfr0 x hx)).2.2.2 hx), hfr0 x hx]
-      have hidxv : idx st1 v = st.nextIndex := by rw [r.idxv, hi0v]
+      have hidxv : vIdx st1 v = st.nextIndex := by rw [r.idxv, hi0v]
       -- what every member of the component-to-be refers to
       have hall : ∀ x, x ∈ new ++ [v] → ∀ w, Edge g x w →
-          Has st1 w ∧ (w ∈ v :: st.stack → low st1 v ≤ idx st1 w) := by
+          Has st1 w ∧ (w ∈ v :: st.stack → vLow st1 v ≤ vIdx st1 w) := by
         intro x hx w e
         rcases List.mem_append.1 hx with hx | hx
         · exact hcl x hx w e
@@ -415,7 +415,7 @@ theorem strongConnect_post (g : Graph) : ∀ fuel, ScPost g (strongConnect g fue
       simp only [strongConnect, bind, Except.bind, h1', hvs] at h
       split at h
       · next heq =>
-        have heq' : low st1 v = idx st1 v := by
+        have heq' : vLow st1 v = vIdx st1 v := by
           have : vs.index = vs.lowlink := by simpa using heq
           omega
         have hnd := hI.inv.nodup
@@ -465,7 +465,7 @@ theorem strongConnect_post (g : Graph) : ∀ fuel, ScPost g (strongConnect g fue
                 omega
           · left; exact hc
       · next hneq =>
-        have hneq' : low st1 v ≠ idx st1 v := by
+        have hneq' : vLow st1 v ≠ vIdx st1 v := by
           intro e
           apply hneq
           have : vs.index = vs.lowlink := by omega
@@ -479,8 +479,8 @@ theorem strongConnect_post (g : Graph) : ∀ fuel, ScPost g (strongConnect g fue
         exact ⟨a, fun hs => b (List.mem_cons_of_mem _ hs)⟩
 
 theorem tarjanLoop_post (g : Graph) (fuel : Nat) : ∀ (vs : List Nat) (st st' : State),
-    (∀ v, v ∈ vs → v ∈ g.nodes) → TInv g st → st.stack = [] → tarjanLoop g fuel vs st = .ok st' →
-    TInv g st' ∧ st'.stack = [] ∧ (∀ x, Has st x → Has st' x) ∧ ∀ v, v ∈ vs → Has st' v := by
+    (∀ v, v ∈ vs → v ∈ g.nodes) → TjInv g st → st.stack = [] → tarjanLoop g fuel vs st = .ok st' →
+    TjInv g st' ∧ st'.stack = [] ∧ (∀ x, Has st x → Has st' x) ∧ ∀ v, v ∈ vs → Has st' v := by
   intro vs
   induction vs with
   | nil =>
@@ -537,7 +537,7 @@ theorem tarjan_topo (g : Graph) (hkeys : g.keys.Nodup) (comps : List (List Nat))
   | ok st =>
     simp only [h1, bind, Except.bind, Except.ok.injEq] at h
     subst h
-    have hT0 : TInv g State.new :=
+    have hT0 : TjInv g State.new :=
       ⟨by simp [State.new], fun x => by simp [State.new, Has], fun x hx => by simp [State.new, Has] at hx,
         by simp [State.new], by simp [State.new], by simp [State.new, compsOk]⟩
     obtain ⟨hT, hs, _, hk⟩ := tarjanLoop_post g _ g.keys State.new st
